@@ -39,6 +39,9 @@ LEVEL_TEXT = (
 @st.composite
 def strategy_(draw):
     c = draw(c15.strategy_())
+    # the tables of this property stay in psi / cP: the library differences storage over +-0.5 *table units*, which the
+    # property states as +-0.5 psi, so a table in Pa or MPa is a different (and unit-dependent) statement
+    c["mu_unit"], c["p_unit"] = 0, 1.0
     n = draw(st.integers(1, 12))
     c["points"] = [
         {"pfrac": draw(st.floats(0.0, 1.0)), "on_node": draw(st.integers(0, 4)) == 0, "sofrac": draw(st.floats(0.0, 1.0))}
